@@ -450,7 +450,7 @@ func step(st linState, op model.Op, out linOut) (bool, linState) {
 		case st.inUse(op.N):
 			want = "inuse"
 		}
-		if want != out.class {
+		if model.Refusal(want) != out.class {
 			return false, st
 		}
 		if want == "removed" {
@@ -550,7 +550,7 @@ func applyLin(b *eventlogger.Broker, w *nodes.World, op model.Op) linOut {
 		ok, _ := b.RemovePipelineAndNodes(ctx, eventlogger.EventType(op.ET), eventlogger.PipelineID(op.P))
 		return linOut{ok: ok}
 	case "rmnode":
-		return linOut{class: model.RemoveNodeClassOf(b.RemoveNode(ctx, eventlogger.NodeID(op.N)))}
+		return linOut{class: model.RemoveNodeOutcome(b.RemoveNode(ctx, eventlogger.NodeID(op.N)), 0)} // harness nodes never fail their Close here
 	case "thr":
 		return linOut{ok: b.SetSuccessThreshold(eventlogger.EventType(op.ET), op.V) == nil}
 	case "getthr":
